@@ -140,6 +140,11 @@ def run(ctx):
             else:
                 out.append(S.app("display", f)); out.append(S.app("newline")) if rng.random() < 0.7 else None
         texts = [S.render(f) for f in out if f is not None]
+        if rng.random() < 0.5:
+            # white space that is significant at the END of a source line: inside a string spanning lines, and the
+            # character literal for a blank
+            k = rng.randrange(len(texts) + 1)
+            texts = texts[:k] + [rng.choice(['(display "left   \n right\t\n")', '(display (list (char? #\ \n) "a \n"))', '(display "x\n\ny ")'])] + texts[k:]
         if any(len(t) > 400 for t in texts):
             continue
         uses_lib = rng.random() < 0.2
